@@ -477,7 +477,8 @@ pub fn gen_facts(rng: &mut Rng, cfg: &GenCfg) -> FactSet {
                 f.terms[i].obsolete = true;
                 if rng.chance(2, 3) && n > 0 {
                     let r = rng.usize_below(total);
-                    if r != i {
+                    // id 0 cannot be named as a replacement: the binary format encodes "none" as 0
+                    if r != i && ids[r] != 0 {
                         f.terms[i].replaced_by = Some(ids[r]);
                     }
                 }
@@ -492,7 +493,7 @@ pub fn gen_facts(rng: &mut Rng, cfg: &GenCfg) -> FactSet {
                 }
                 if rng.chance(1, 20) {
                     let r = rng.usize_below(total);
-                    if r != i {
+                    if r != i && ids[r] != 0 {
                         f.terms[i].replaced_by = Some(ids[r]);
                     }
                 }
